@@ -203,11 +203,12 @@ example : sumBuffered (run exampleCfg exampleOps).1.streams = 0 := by decide
 
 /-- **script_covered**: the pumped execution the deterministic script lane compares with the
 implementation (`scriptStep`: a scripted operation, then all body writers run until they block)
-is the run of the machine on that operation followed by `write` operations — one of the
-operation lists the theorems above quantify over. -/
+is the run of the machine on that operation, a wake-up (`Op.wake`: the lane broadcasts on
+`cc.cond` after every operation) and `write` operations — one of the operation lists the
+theorems above quantify over. -/
 theorem script_covered (st : State) (hist : List Event) (op : Op) :
     ∃ ws : List Op, (∀ o ∈ ws, ∃ id, o = Op.write id) ∧
-      (runFrom st hist (op :: ws)).1 = (scriptStep st op).1 :=
+      (runFrom st hist (op :: Op.wake :: ws)).1 = (scriptStep st op).1 :=
   pump_is_run st hist op
 
 /-! ### the unchanged code: one counter-example per repair (replayed on the implementation by the
